@@ -570,7 +570,7 @@ pub fn run(tier: &str) -> i32 {
         if !((thorough && (!space_a || hash64(&progs[i].key) % 8 == 1)) || (!thorough && hash64(&progs[i].key) % 8 == 1)) {
             continue;
         }
-        for how in ["reverse", "entries-first"] {
+        for how in ["reverse", "entries-first", "interleave"] {
             if let Some(src) = reorder_decls(&progs[i].src, how) {
                 progs.push(Prog { key: format!("{}|decl-order={how}", progs[i].key), src, expect: progs[i].expect.clone(), steps: progs[i].steps });
             }
